@@ -781,6 +781,27 @@ theorem spheropolygon_isoperimetric (A P r : ℝ) (hP : 0 < P) (hr : 0 ≤ r) :
       Shape2D.iq A P ≤ 1) :=
   ⟨isoperimetric_deficit_rounding A P r, iq2_rounded_le_one_iff A P r hP hr⟩
 
+/-- **rounding never lowers the isoperimetric quotient**: for a core satisfying the isoperimetric
+inequality `4πA ≤ P²`, `iq` of the spheropolygon is monotone in the rounding radius, starts at the core's
+own value and stays `≤ 1` (closed form `1 − (P² − 4πA)/P_r²`).  Used by the harness as the law
+`c11.iqmono` on the implementation's `ConvexSpheropolygon.iq` through the radius setter. -/
+theorem spheropolygon_iq_mono (A P r r' : ℝ) (hP : 0 < P) (hr : 0 ≤ r) (hrr : r ≤ r')
+    (hiso : 4 * Real.pi * A ≤ P ^ 2) :
+    Shape2D.iq A P ≤ Shape2D.iq (SteinerSpec.steinerArea2 A P r) (SteinerSpec.steinerPerimeter2 P r) ∧
+    Shape2D.iq (SteinerSpec.steinerArea2 A P r) (SteinerSpec.steinerPerimeter2 P r) ≤
+      Shape2D.iq (SteinerSpec.steinerArea2 A P r') (SteinerSpec.steinerPerimeter2 P r') ∧
+    Shape2D.iq (SteinerSpec.steinerArea2 A P r') (SteinerSpec.steinerPerimeter2 P r') ≤ 1 := by
+  refine ⟨?_, iq2_rounded_mono A P r r' hP hr hrr hiso, ?_⟩
+  · have h := iq2_rounded_mono A P 0 r hP le_rfl hr hiso
+    rwa [(steiner2_zero A P).1, (steiner2_zero A P).2] at h
+  · rw [iq2_rounded_eq A P r' hP (le_trans hr hrr)]
+    have : 0 ≤ (P ^ 2 - 4 * Real.pi * A) / (SteinerSpec.steinerPerimeter2 P r') ^ 2 :=
+      div_nonneg (by linarith) (by positivity)
+    linarith
+
+/-- non-vacuity: the unit square (`A = 1`, `P = 4`) meets the hypothesis -/
+example : 4 * Real.pi * 1 ≤ (4 : ℝ) ^ 2 := by have := Real.pi_le_four; nlinarith
+
 /-! ### (4) histories: radius setter, `_rescale`, size setters in any order -/
 
 /-- **every history of a spheropolyhedron** (radius / volume / surface-area / mean-curvature setters
